@@ -6,6 +6,7 @@ CONSTANTS
   K = 3
   MaxHist = 5
   HasErase = FALSE
+  Copies = FALSE
   Mutation = "none"
 CONSTRAINT Bound
 VIEW repview
